@@ -202,6 +202,10 @@ func (d *Disk) Counts() [6]int {
 	return c
 }
 
+// EnvLimitHit reports (under the disk's lock) whether an I/O call was refused
+// because of the simulated capacity / address space.
+func (d *Disk) EnvLimitHit() bool { d.mu.Lock(); defer d.mu.Unlock(); return d.AddressSpaceExceeded }
+
 // Injected returns the number of faults injected so far.
 func (d *Disk) Injected() int { d.mu.Lock(); defer d.mu.Unlock(); return d.injected }
 
